@@ -148,20 +148,28 @@ Proof.
     apply orb_true_intro. destruct Hh as [Hh|Hh]; [left|right]; now apply beq_eq.
 Qed.
 
+(* segment-boundary prefix: equal, or followed by a slash *)
+Lemma path_prefix_seg_spec req p : path_prefix true req p = true <-> req = p \/ exists r, req = p ++ 47 :: r.
+Proof.
+  unfold path_prefix. rewrite orb_true_iff, beq_eq, has_prefix_spec. split; intros [H|[r H]]; auto.
+  - right. exists r. rewrite H, <- app_assoc. reflexivity.
+  - right. exists r. rewrite H, <- app_assoc. reflexivity.
+Qed.
+
 (* the matched path is a configured, non-empty-or-root prefix of the request path, and the longest such *)
-Lemma matching_path_from_spec paths req best :
-  let m := matching_path_from paths req best in
-  (m = best \/ (In m paths /\ m <> [] /\ has_prefix req m = true)) /\
+Lemma matching_path_from_spec seg paths req best :
+  let m := matching_path_from seg paths req best in
+  (m = best \/ (In m paths /\ m <> [] /\ path_prefix seg req m = true)) /\
   (length best <= length m)%nat /\
-  (forall p, In p paths -> p <> [] -> has_prefix req p = true -> (length p <= length m)%nat).
+  (forall p, In p paths -> p <> [] -> path_prefix seg req p = true -> (length p <= length m)%nat).
 Proof.
   revert best. induction paths as [|p r IH]; intros best; cbn [matching_path_from].
   - cbn. split; [now left|]. split; [lia|]. intros p [].
-  - set (best' := match p with [] => best | _ :: _ => if has_prefix req p && Nat.ltb (length best) (length p) then p else best end).
+  - set (best' := match p with [] => best | _ :: _ => if path_prefix seg req p && Nat.ltb (length best) (length p) then p else best end).
     specialize (IH best'). cbn zeta in IH. destruct IH as (H1 & H2 & H3).
-    assert (Hb : (best' = best \/ (best' = p /\ p <> [] /\ has_prefix req p = true /\ (length best < length p)%nat)) /\ (length best <= length best')%nat).
+    assert (Hb : (best' = best \/ (best' = p /\ p <> [] /\ path_prefix seg req p = true /\ (length best < length p)%nat)) /\ (length best <= length best')%nat).
     { unfold best'. destruct p as [|x p']; [split; [now left|lia]|].
-      destruct (has_prefix req (x :: p') && Nat.ltb (length best) (length (x :: p'))) eqn:E.
+      destruct (path_prefix seg req (x :: p') && Nat.ltb (length best) (length (x :: p'))) eqn:E.
       - apply andb_prop in E as [E1 E2]. apply Nat.ltb_lt in E2. split; [right; repeat split; auto; discriminate|lia].
       - split; [now left|lia]. }
     destruct Hb as (Hb & Hlen). split; [|split].
